@@ -91,6 +91,47 @@ pub fn list_of(size: u32) -> usize {
     }
     15
 }
+/// loop-free variants (constant-bound loops cost every CBMC harness an unwind bound of 16)
+pub fn list_of_lf(size: u32) -> usize {
+    if size >= 1024 {
+        15
+    } else if size == 16 {
+        0
+    } else if size == 24 {
+        1
+    } else if size == 32 {
+        2
+    } else if size == 48 {
+        3
+    } else if size == 64 {
+        4
+    } else if size == 80 {
+        5
+    } else if size == 96 {
+        6
+    } else if size == 112 {
+        7
+    } else if size == 128 {
+        8
+    } else if size == 256 {
+        9
+    } else if size == 384 {
+        10
+    } else if size == 512 {
+        11
+    } else if size == 640 {
+        12
+    } else if size == 768 {
+        13
+    } else if size == 896 {
+        14
+    } else {
+        15
+    }
+}
+pub fn is_slot_size_lf(size: u32) -> bool {
+    (size >= 1024 && size % 128 == 0) || size == 16 || size == 24 || size == 32 || size == 48 || size == 64 || size == 80 || size == 96 || size == 112 || size == 128 || size == 256 || size == 384 || size == 512 || size == 640 || size == 768 || size == 896
+}
 pub fn is_slot_size(size: u32) -> bool {
     let mut i = 0;
     while i < 15 {
